@@ -1080,4 +1080,227 @@ theorem reachable_inv {s : St} (h : Reachable s) : Inv s := by
   | init => exact inv_init
   | step now a _ hs ih => exact inv_step ih hs
 
+/-! ### What a step can change -/
+
+/-- The step is the locked check section of `runWithLocking` on task `t`, issued by the handler holding `t`,
+    and it takes the branch that enters the executing state. -/
+def Starts (s : St) (a : Act) (t : Nat) : Prop :=
+  ((a = .runQ ∧ s.qh = .hold t) ∨ (a = .runS ∧ s.sh = .holdRun t)) ∧ runResOf s t = .started
+
+/-- The step discards the pending request of `t`: check section on `t` while `t` is executing. -/
+def Drops (s : St) (a : Act) (t : Nat) : Prop :=
+  ((a = .runQ ∧ s.qh = .hold t) ∨ (a = .runS ∧ s.sh = .holdRun t)) ∧ runResOf s t = .executing
+
+syntax "fin_chg " ident ident : tactic
+macro_rules
+  | `(tactic| fin_chg $x $t) => `(tactic|
+      (by_cases e : $x = $t
+       · subst e; (try simp [Task.active, Starts, Drops, runResOf] at *) <;> (try grind)
+       · have e' : ¬ $t = $x := fun h => e h.symm
+         (try simp [e, e'])
+         (try grind)))
+
+theorem starts_change {s s' : St} {a : Act}  (h : stepAt s a = some s') : ∀ x, (s'.tasks x).starts = (s.tasks x).starts ∨ ((s'.tasks x).starts = (s.tasks x).starts + 1 ∧ Starts s a x) := by
+  cases a with
+  | newInert t => simp only [stepAt] at h; cases h; intro x; have hx := (fun _ : Nat => True.intro) x; have ht := (fun _ : Nat => True.intro) t; fin_chg x t
+  | queue t => simp only [stepAt] at h; cases h; intro x; have hx := (fun _ : Nat => True.intro) x; have ht := (fun _ : Nat => True.intro) t; simp only [doQueue]; (repeat' split) <;> fin_chg x t
+  | queueP t => simp only [stepAt] at h; cases h; intro x; have hx := (fun _ : Nat => True.intro) x; have ht := (fun _ : Nat => True.intro) t; simp only [doQueueP]; (repeat' split) <;> fin_chg x t
+  | asap t b =>
+    simp only [stepAt] at h; split at h
+    · cases h
+    · cases h; intro x; have hx := (fun _ : Nat => True.intro) x; have ht := (fun _ : Nat => True.intro) t; simp only [doAsap]; (repeat' split) <;> fin_chg x t
+  | maxDelay t d => simp only [stepAt] at h; cases h; intro x; have hx := (fun _ : Nat => True.intro) x; have ht := (fun _ : Nat => True.intro) t; fin_chg x t
+  | schedule t tm => simp only [stepAt] at h; cases h; intro x; have hx := (fun _ : Nat => True.intro) x; have ht := (fun _ : Nat => True.intro) t; simp only [doSchedule]; (repeat' split) <;> fin_chg x t
+  | cancel t => simp only [stepAt] at h; cases h; intro x; have hx := (fun _ : Nat => True.intro) x; have ht := (fun _ : Nat => True.intro) t; simp only [doCancel]; fin_chg x t
+  | qhWait =>
+    simp only [stepAt] at h; split at h
+    · cases h
+    · cases h; intro x; have hx := (fun _ : Nat => True.intro) x; ((try simp) <;> (try grind))
+  | qhPop =>
+    simp only [stepAt] at h; (repeat' split at h) <;> cases h <;> intro x <;> have hx := (fun _ : Nat => True.intro) x <;> ((try simp) <;> (try grind))
+  | runQ =>
+    simp only [stepAt] at h; split at h
+    · rename_i t hq
+      cases h; intro x; have hx := (fun _ : Nat => True.intro) x; have ht := (fun _ : Nat => True.intro) t
+      simp only [runSection, runResOf]; (repeat' split) <;> fin_chg x t
+    · cases h
+  | runS =>
+    simp only [stepAt] at h; split at h
+    · rename_i t hq
+      cases h; intro x; have hx := (fun _ : Nat => True.intro) x; have ht := (fun _ : Nat => True.intro) t
+      simp only [runSection, runResOf]; (repeat' split) <;> fin_chg x t
+    · cases h
+  | spawnQ =>
+    simp only [stepAt] at h; split at h
+    · rename_i t hq
+      cases h; intro x; have hx := (fun _ : Nat => True.intro) x; have ht := (fun _ : Nat => True.intro) t; fin_chg x t
+    · cases h
+  | spawnS =>
+    simp only [stepAt] at h; split at h
+    · rename_i t hq
+      cases h; intro x; have hx := (fun _ : Nat => True.intro) x; have ht := (fun _ : Nat => True.intro) t; fin_chg x t
+    · cases h
+  | fnBegin t =>
+    simp only [stepAt] at h; split at h
+    · cases h
+    · cases h; intro x; have hx := (fun _ : Nat => True.intro) x; have ht := (fun _ : Nat => True.intro) t; fin_chg x t
+  | fnEnd t =>
+    simp only [stepAt] at h; split at h
+    · cases h
+    · cases h; intro x; have hx := (fun _ : Nat => True.intro) x; have ht := (fun _ : Nat => True.intro) t; fin_chg x t
+  | finish t =>
+    simp only [stepAt] at h; split at h
+    · cases h
+    · cases h; intro x; have hx := (fun _ : Nat => True.intro) x; have ht := (fun _ : Nat => True.intro) t; fin_chg x t
+  | slotFree t b =>
+    simp only [stepAt] at h; (repeat' split at h) <;> (try cases h)
+    all_goals (intro x; have hx := (fun _ : Nat => True.intro) x; have ht := (fun _ : Nat => True.intro) t; (repeat' split) <;> fin_chg x t)
+  | shFetch =>
+    simp only [stepAt] at h; (repeat' split at h) <;> (try cases h)
+    · intro x; have hx := (fun _ : Nat => True.intro) x; ((try simp) <;> (try grind))
+    · intro x; have hx := (fun _ : Nat => True.intro) x; ((try simp) <;> (try grind))
+    · rename_i t hf; have hf2 := fetchRes_run hf; intro x; have hx := (fun _ : Nat => True.intro) x; have ht := (fun _ : Nat => True.intro) t; fin_chg x t
+    · rename_i t hf; have hf2 := fetchRes_asap hf; intro x; have hx := (fun _ : Nat => True.intro) x; have ht := (fun _ : Nat => True.intro) t; fin_chg x t
+
+theorem canceled_mono {s s' : St} {a : Act}  (h : stepAt s a = some s') : ∀ x, (s.tasks x).canceled = true → (s'.tasks x).canceled = true := by
+  cases a with
+  | newInert t => simp only [stepAt] at h; cases h; intro x; have hx := (fun _ : Nat => True.intro) x; have ht := (fun _ : Nat => True.intro) t; fin_chg x t
+  | queue t => simp only [stepAt] at h; cases h; intro x; have hx := (fun _ : Nat => True.intro) x; have ht := (fun _ : Nat => True.intro) t; simp only [doQueue]; (repeat' split) <;> fin_chg x t
+  | queueP t => simp only [stepAt] at h; cases h; intro x; have hx := (fun _ : Nat => True.intro) x; have ht := (fun _ : Nat => True.intro) t; simp only [doQueueP]; (repeat' split) <;> fin_chg x t
+  | asap t b =>
+    simp only [stepAt] at h; split at h
+    · cases h
+    · cases h; intro x; have hx := (fun _ : Nat => True.intro) x; have ht := (fun _ : Nat => True.intro) t; simp only [doAsap]; (repeat' split) <;> fin_chg x t
+  | maxDelay t d => simp only [stepAt] at h; cases h; intro x; have hx := (fun _ : Nat => True.intro) x; have ht := (fun _ : Nat => True.intro) t; fin_chg x t
+  | schedule t tm => simp only [stepAt] at h; cases h; intro x; have hx := (fun _ : Nat => True.intro) x; have ht := (fun _ : Nat => True.intro) t; simp only [doSchedule]; (repeat' split) <;> fin_chg x t
+  | cancel t => simp only [stepAt] at h; cases h; intro x; have hx := (fun _ : Nat => True.intro) x; have ht := (fun _ : Nat => True.intro) t; simp only [doCancel]; fin_chg x t
+  | qhWait =>
+    simp only [stepAt] at h; split at h
+    · cases h
+    · cases h; intro x; have hx := (fun _ : Nat => True.intro) x; ((try simp) <;> (try grind))
+  | qhPop =>
+    simp only [stepAt] at h; (repeat' split at h) <;> cases h <;> intro x <;> have hx := (fun _ : Nat => True.intro) x <;> ((try simp) <;> (try grind))
+  | runQ =>
+    simp only [stepAt] at h; split at h
+    · rename_i t hq
+      cases h; intro x; have hx := (fun _ : Nat => True.intro) x; have ht := (fun _ : Nat => True.intro) t
+      simp only [runSection, runResOf]; (repeat' split) <;> fin_chg x t
+    · cases h
+  | runS =>
+    simp only [stepAt] at h; split at h
+    · rename_i t hq
+      cases h; intro x; have hx := (fun _ : Nat => True.intro) x; have ht := (fun _ : Nat => True.intro) t
+      simp only [runSection, runResOf]; (repeat' split) <;> fin_chg x t
+    · cases h
+  | spawnQ =>
+    simp only [stepAt] at h; split at h
+    · rename_i t hq
+      cases h; intro x; have hx := (fun _ : Nat => True.intro) x; have ht := (fun _ : Nat => True.intro) t; fin_chg x t
+    · cases h
+  | spawnS =>
+    simp only [stepAt] at h; split at h
+    · rename_i t hq
+      cases h; intro x; have hx := (fun _ : Nat => True.intro) x; have ht := (fun _ : Nat => True.intro) t; fin_chg x t
+    · cases h
+  | fnBegin t =>
+    simp only [stepAt] at h; split at h
+    · cases h
+    · cases h; intro x; have hx := (fun _ : Nat => True.intro) x; have ht := (fun _ : Nat => True.intro) t; fin_chg x t
+  | fnEnd t =>
+    simp only [stepAt] at h; split at h
+    · cases h
+    · cases h; intro x; have hx := (fun _ : Nat => True.intro) x; have ht := (fun _ : Nat => True.intro) t; fin_chg x t
+  | finish t =>
+    simp only [stepAt] at h; split at h
+    · cases h
+    · cases h; intro x; have hx := (fun _ : Nat => True.intro) x; have ht := (fun _ : Nat => True.intro) t; fin_chg x t
+  | slotFree t b =>
+    simp only [stepAt] at h; (repeat' split at h) <;> (try cases h)
+    all_goals (intro x; have hx := (fun _ : Nat => True.intro) x; have ht := (fun _ : Nat => True.intro) t; (repeat' split) <;> fin_chg x t)
+  | shFetch =>
+    simp only [stepAt] at h; (repeat' split at h) <;> (try cases h)
+    · intro x; have hx := (fun _ : Nat => True.intro) x; ((try simp) <;> (try grind))
+    · intro x; have hx := (fun _ : Nat => True.intro) x; ((try simp) <;> (try grind))
+    · rename_i t hf; have hf2 := fetchRes_run hf; intro x; have hx := (fun _ : Nat => True.intro) x; have ht := (fun _ : Nat => True.intro) t; fin_chg x t
+    · rename_i t hf; have hf2 := fetchRes_asap hf; intro x; have hx := (fun _ : Nat => True.intro) x; have ht := (fun _ : Nat => True.intro) t; fin_chg x t
+
+theorem dropped_change {s s' : St} {a : Act}  (h : stepAt s a = some s') : ∀ x, (s'.tasks x).dropped = true → (s.tasks x).dropped = true ∨ Drops s a x := by
+  cases a with
+  | newInert t => simp only [stepAt] at h; cases h; intro x; have hx := (fun _ : Nat => True.intro) x; have ht := (fun _ : Nat => True.intro) t; fin_chg x t
+  | queue t => simp only [stepAt] at h; cases h; intro x; have hx := (fun _ : Nat => True.intro) x; have ht := (fun _ : Nat => True.intro) t; simp only [doQueue]; (repeat' split) <;> fin_chg x t
+  | queueP t => simp only [stepAt] at h; cases h; intro x; have hx := (fun _ : Nat => True.intro) x; have ht := (fun _ : Nat => True.intro) t; simp only [doQueueP]; (repeat' split) <;> fin_chg x t
+  | asap t b =>
+    simp only [stepAt] at h; split at h
+    · cases h
+    · cases h; intro x; have hx := (fun _ : Nat => True.intro) x; have ht := (fun _ : Nat => True.intro) t; simp only [doAsap]; (repeat' split) <;> fin_chg x t
+  | maxDelay t d => simp only [stepAt] at h; cases h; intro x; have hx := (fun _ : Nat => True.intro) x; have ht := (fun _ : Nat => True.intro) t; fin_chg x t
+  | schedule t tm => simp only [stepAt] at h; cases h; intro x; have hx := (fun _ : Nat => True.intro) x; have ht := (fun _ : Nat => True.intro) t; simp only [doSchedule]; (repeat' split) <;> fin_chg x t
+  | cancel t => simp only [stepAt] at h; cases h; intro x; have hx := (fun _ : Nat => True.intro) x; have ht := (fun _ : Nat => True.intro) t; simp only [doCancel]; fin_chg x t
+  | qhWait =>
+    simp only [stepAt] at h; split at h
+    · cases h
+    · cases h; intro x; have hx := (fun _ : Nat => True.intro) x; ((try simp) <;> (try grind))
+  | qhPop =>
+    simp only [stepAt] at h; (repeat' split at h) <;> cases h <;> intro x <;> have hx := (fun _ : Nat => True.intro) x <;> ((try simp) <;> (try grind))
+  | runQ =>
+    simp only [stepAt] at h; split at h
+    · rename_i t hq
+      cases h; intro x; have hx := (fun _ : Nat => True.intro) x; have ht := (fun _ : Nat => True.intro) t
+      simp only [runSection, runResOf]; (repeat' split) <;> fin_chg x t
+    · cases h
+  | runS =>
+    simp only [stepAt] at h; split at h
+    · rename_i t hq
+      cases h; intro x; have hx := (fun _ : Nat => True.intro) x; have ht := (fun _ : Nat => True.intro) t
+      simp only [runSection, runResOf]; (repeat' split) <;> fin_chg x t
+    · cases h
+  | spawnQ =>
+    simp only [stepAt] at h; split at h
+    · rename_i t hq
+      cases h; intro x; have hx := (fun _ : Nat => True.intro) x; have ht := (fun _ : Nat => True.intro) t; fin_chg x t
+    · cases h
+  | spawnS =>
+    simp only [stepAt] at h; split at h
+    · rename_i t hq
+      cases h; intro x; have hx := (fun _ : Nat => True.intro) x; have ht := (fun _ : Nat => True.intro) t; fin_chg x t
+    · cases h
+  | fnBegin t =>
+    simp only [stepAt] at h; split at h
+    · cases h
+    · cases h; intro x; have hx := (fun _ : Nat => True.intro) x; have ht := (fun _ : Nat => True.intro) t; fin_chg x t
+  | fnEnd t =>
+    simp only [stepAt] at h; split at h
+    · cases h
+    · cases h; intro x; have hx := (fun _ : Nat => True.intro) x; have ht := (fun _ : Nat => True.intro) t; fin_chg x t
+  | finish t =>
+    simp only [stepAt] at h; split at h
+    · cases h
+    · cases h; intro x; have hx := (fun _ : Nat => True.intro) x; have ht := (fun _ : Nat => True.intro) t; fin_chg x t
+  | slotFree t b =>
+    simp only [stepAt] at h; (repeat' split at h) <;> (try cases h)
+    all_goals (intro x; have hx := (fun _ : Nat => True.intro) x; have ht := (fun _ : Nat => True.intro) t; (repeat' split) <;> fin_chg x t)
+  | shFetch =>
+    simp only [stepAt] at h; (repeat' split at h) <;> (try cases h)
+    · intro x; have hx := (fun _ : Nat => True.intro) x; ((try simp) <;> (try grind))
+    · intro x; have hx := (fun _ : Nat => True.intro) x; ((try simp) <;> (try grind))
+    · rename_i t hf; have hf2 := fetchRes_run hf; intro x; have hx := (fun _ : Nat => True.intro) x; have ht := (fun _ : Nat => True.intro) t; fin_chg x t
+    · rename_i t hf; have hf2 := fetchRes_asap hf; intro x; have hx := (fun _ : Nat => True.intro) x; have ht := (fun _ : Nat => True.intro) t; fin_chg x t
+
+theorem doAsap_prio (s : St) (t : Nat) (b : Bool) (hact : (s.tasks t).canceled = false) :
+    (doAsap s t b).prio =
+      if (s.tasks t).inP = false then t :: s.prio
+      else if t ∈ s.prio then t :: s.prio.erase t else s.prio := by
+  cases b <;> simp [doAsap, Task.active, hact] <;> (repeat' split) <;> simp_all [setTask]
+
+theorem reachable_runTrace {s s' : St} (tr : List (Nat × Act)) (hr : Reachable s) (h : runTrace s tr = some s') :
+    Reachable s' := by
+  induction tr generalizing s with
+  | nil => simp [runTrace] at h; subst h; exact hr
+  | cons e rest ih =>
+    obtain ⟨n, a⟩ := e
+    simp only [runTrace] at h
+    split at h
+    · cases h
+    · rename_i s1 hs1; exact ih (Reachable.step n a hr hs1) h
+
 end PB.Tasks
